@@ -5,6 +5,7 @@ VERIF = os.path.dirname(os.path.dirname(os.path.abspath(__file__)))
 sys.path.insert(0, os.path.join(VERIF, 'tools'))
 from pv.ast import *
 from pv import sexp
+from pv.sexp import S
 
 def one(mod, cid, ps=4, **kw):
     return case(cid, ps, [modent(path('m'), mod)], **kw)
@@ -49,6 +50,12 @@ W['C09/abc2'] = one(abc, 'abc-good-order', prio=[path('m', 'B'), path('m', 'A'),
 W['C10/abc'] = W['C09/abc']
 W['C03/align3'] = one(module(defs=[T('T', [a_int('align', 3)], [])]), 'align3')
 W['C03/align3b'] = one(module(defs=[T('T', [a_int('align', 3)], [F('a', u8), F('b', u8), F('c', u8)])]), 'align3-fields')
+
+W['C11/own_path'] = case('own-path-is-type', 4, [
+    modent(path('a'), module(defs=[T('b', [a_ident('packed')], [F('x', ty_arr(u8, 5))])])),
+    modent(path('a', 'b'), module(defs=[T('b', [a_ident('packed')], [F('x', ty_arr(u8, 7))]),
+                                        T('User', [a_ident('packed')], [F('f0', ty_id('b'))])]))],
+    extras=[[S('observe'), path('a', 'b')]])
 
 for key, c in W.items():
     d, name = key.split('/')
